@@ -71,7 +71,10 @@ def execute(prop: str, family: str, seed: Optional[int], prefix: Sequence[int] =
             replay: Optional[Sequence[int]] = None, keep_history: bool = False) -> Dict[str, Any]:
     """One simulated run.  Pure function of (code under test, prop, family, choices)."""
     mod = load_prop(prop)
-    ch = Choices(seed, prefix=prefix, replay=replay)
+    if isinstance(prefix, dict):
+        ch = Choices(seed, replay=replay, forced=prefix)
+    else:
+        ch = Choices(seed, prefix=prefix, replay=replay)
     w = World(ch, prop, step_cap=getattr(mod, 'STEP_CAP', 20000))
     _reset_process_state()
     harness_error = None
@@ -185,7 +188,8 @@ def _work(args: Tuple[str, str, int, List[Any], int]) -> Dict[str, Any]:
                 unknown.append(v)
         if unknown:
             if len(agg['failed']) < 6:
-                agg['failed'].append({'family': family, 'seed': seed, 'index': index, 'prefix': list(prefix),
+                agg['failed'].append({'family': family, 'seed': seed, 'index': index,
+                                      'prefix': prefix if isinstance(prefix, dict) else list(prefix),
                                       'trace': res['trace'], 'violations': unknown, 'digest': res['digest'],
                                       'scenario': res.get('scenario')})
             else:
@@ -421,7 +425,7 @@ def run_check(prop: str, tier: str, base: int, workers: int, budget_s: Optional[
         if sysgen is not None:
             prefixes = list(sysgen(tier))
             systematic_total += len(prefixes)
-            items = [(i, list(p)) for i, p in enumerate(prefixes)]
+            items = [(i, p if isinstance(p, dict) else list(p)) for i, p in enumerate(prefixes)]
             for k in range(0, len(items), chunk):
                 tasks.append((prop, family, base, items[k:k + chunk], 1 if k == 0 else 0))
         for k in range(0, n, chunk):
